@@ -297,7 +297,7 @@ class Scenario:
             "samples_csv": samples_csv,
             "keep_internal": keep_internal,
             "search": kind.split("_")[0],
-            "fom_is_likelihood": kind == "dynesty" or (kind == "drawer" and prior == "uniform"),
+            "fom_is_likelihood": kind.startswith("dynesty") or (kind == "drawer" and prior == "uniform"),
         }
         self.name = f"{kind}/{prior}/rm{int(remove_files)}csv{int(samples_csv)}int{int(keep_internal)}"
 
@@ -463,6 +463,8 @@ def rerun_case(sc: Scenario, cfg, history, state, done, traced=False, label="gen
     if real["outcome"] != "ok":
         failed = True
         ecls = classify_error(real["etype"])
+        if ecls == "SearchException" and "likelihood" not in str(real.get("error", "")).lower():
+            ecls = "SearchException-other"  # (the repaired finding is the resume check on the figure of merit)
         ctx.fail(FAILURE_CLASS.get(ecls, "C06-rerun-raises-" + ecls),
                  f"re-running the fit after a crash raises {real['error']}", case,
                  {"state": a, "error": real["error"], "lost": persisted(real["final"]) is None and done is not None})
@@ -990,15 +992,17 @@ def run(ctx):
         plans = [
             (k1, rng.choice(["uniform", "gauss"]), c1, None, ("empty",), 1, 3),
             (k2, rng.choice(["uniform", "gauss"]), c2, 60, ("empty", "half"), 1, 2),
-            ("dynesty", "uniform", c3, 14, ("empty",), 0, 0),
+            ("dynesty", "uniform", c3, 8, ("empty",), 0, 0),
+            ("dynesty_x1", "uniform", rng.choice(combos), 8, ("empty",), 0, 0),
         ]
     else:
         plans = []
-        for kind in ("drawer", "lbfgs", "lbfgs_cap", "dynesty"):
-            for c in combos:
-                prior = rng.choice(["uniform", "gauss"]) if kind != "dynesty" else "uniform"
-                budget = None if kind != "dynesty" else 28
-                plans.append((kind, prior, c, budget, ("empty", "half", "random"), 2 if kind != "dynesty" else 1, 3))
+        for kind in ("drawer", "lbfgs", "lbfgs_cap", "dynesty", "dynesty_x1"):
+            for c in (combos if kind != "dynesty_x1" else combos[::3]):
+                dyn = kind.startswith("dynesty")
+                prior = rng.choice(["uniform", "gauss"]) if not dyn else "uniform"
+                budget = None if not dyn else 28
+                plans.append((kind, prior, c, budget, ("empty", "half", "random"), 2 if not dyn else 1, 3))
     for kind, prior, (rm, cs, ki), budget, modes, depth, chains in plans:
         sc = Scenario(ctx, kind, prior, rm, cs, ki)
         ctx.hit("plan:" + sc.name)
